@@ -2,11 +2,16 @@
    node gives the same value as an infinitesimally displaced x.
    Model: theories/Interp.v (eko's piecewise Lagrange basis with its block rule), tied by tools/corr/interp.py.
    Proved: the algebraic core (exactness on polynomials up to the degree on every area of every grid, partition of unity,
-   continuity of every basis function at every node, Kronecker property).  The analytic statement (error O(h^(d+1)) for a
-   smooth PDF through the convolution integral) is NOT proved; it is explored on real runs by tools/props/C19.py. *)
-From Coq Require Import ZArith List Bool Arith.
-From Yad Require Import Base Interp InterpTheorems.
+   continuity of every basis function at every node, Kronecker property), and — over the reals — the analytic bound on the
+   interpolation error of a smooth function, (1 + Lebesgue function) M h^(d+1)/(d+1)!, with convergence under refinement, and the
+   bound that carries an interpolation error through the convolution integral to the prediction.  What is NOT proved: the
+   Lipschitz constant of the interpolation error (it enters the plus-distribution part) is a hypothesis, and the Lebesgue function
+   is a hypothesis of the convergence theorem; these are explored on real runs by tools/props/C19.py. *)
+From Coq Require Import ZArith List Bool Arith Reals.
+From Coquelicot Require Import Coquelicot.
+From Yad Require Import Base Interp InterpTheorems InterpReal Conv ConvError.
 Import ListNotations.
+Open Scope nat_scope.
 
 (* any polynomial of degree <= d in the interpolation variable is reproduced exactly by the d+1 nodes of the block of
    ANY area of ANY grid (degrees 1..4): two grids, or two degrees, give identical interpolants for such a function *)
@@ -31,3 +36,55 @@ Print Assumptions C19_kronecker.
 (* non-vacuity: a concrete grid meets the hypotheses *)
 Example C19_grid_example : @alldiff QcFld [qc 1 8; qc 1 4; qc 1 2; qc 3 4; qc 1 1] /\ 4 < 5.
 Proof. cbn [alldiff]. repeat split; try (repeat constructor; repeat split; discriminate). Qed.
+
+(* ---------------- the analytic half (over the reals; Coquelicot's Taylor-Lagrange formula) *)
+(* Lebesgue's lemma on a block of 2..5 pairwise distinct nodes: the interpolation error of ANY function g is at most
+   (1 + Lebesgue function) times its distance from any polynomial of degree <= d *)
+Theorem C19_lebesgue_lemma vs g a c n t E : @alldiff RFld vs -> 2 <= length vs <= 5 -> n < length vs ->
+  (forall j, j < length vs -> (Rabs (g (nth j vs 0%R) - peval c n (nth j vs 0%R - a)) <= E)%R) ->
+  (Rabs (g t - peval c n (t - a)) <= E)%R ->
+  (Rabs (interp vs g t - g t) <= (1 + lebesgue vs t) * E)%R.
+Proof. exact (lebesgue_lemma vs g a c n t E). Qed.
+Print Assumptions C19_lebesgue_lemma.
+(* what a prediction uses on area i of a grid — the sum over ALL basis functions of f(x_j) p_j(t) — is the Lagrange interpolant
+   on the block of that area *)
+Theorem C19_grid_interpolant_is_block_interpolant ns d i f t : 1 <= d -> d < length ns -> i + 1 < length ns ->
+  grid_interp ns d i f t = interp (@block_nodes RFld ns d i) f t.
+Proof. exact (grid_interp_is_block_interp ns d i f t). Qed.
+Print Assumptions C19_grid_interpolant_is_block_interpolant.
+(* a function with d+1 derivatives, the last bounded by M on [A, B] containing the block and the point: the error is
+   (1 + Lambda) M (B - A)^(d+1) / (d+1)!  —  degrees 1..4, any grid, any area, no assumption on the spacing *)
+Theorem C19_interpolation_error ns d i f A B M t : @alldiff RFld ns -> 1 <= d <= 4 -> d < length ns -> i + 1 < length ns -> (A < B)%R ->
+  (forall j, j <= d -> (A <= nth j (@block_nodes RFld ns d i) 0 <= B)%R) -> (A <= t <= B)%R ->
+  (forall u, (A <= u <= B)%R -> forall k, k <= S d -> ex_derive_n f k u) ->
+  (forall u, (A < u < B)%R -> (Rabs (Derive_n f (S d) u) <= M)%R) ->
+  (Rabs (grid_interp ns d i f t - f t) <= (1 + lebesgue (@block_nodes RFld ns d i) t) * (M * (B - A) ^ S d / INR (fact (S d))))%R.
+Proof. exact (grid_interp_error ns d i f A B M t). Qed.
+Print Assumptions C19_interpolation_error.
+(* convergence under refinement: below any eps once the blocks are narrower than delta (the Lebesgue function, which depends on
+   the relative spacing only, bounded by Lam) *)
+Theorem C19_refinement_converges f lo hi d M Lam : 1 <= d <= 4 -> (lo < hi)%R ->
+  (forall u, (lo <= u <= hi)%R -> forall k, k <= S d -> ex_derive_n f k u) ->
+  (forall u, (lo < u < hi)%R -> (Rabs (Derive_n f (S d) u) <= M)%R) ->
+  forall eps, (0 < eps)%R -> exists delta, (0 < delta)%R /\
+    forall ns i A B t, @alldiff RFld ns -> d < length ns -> i + 1 < length ns -> (lo <= A)%R -> (A < B)%R -> (B <= hi)%R ->
+      (forall j, j <= d -> (A <= nth j (@block_nodes RFld ns d i) 0 <= B)%R) -> (A <= t <= B)%R ->
+      (lebesgue (@block_nodes RFld ns d i) t <= Lam)%R -> (B - A < delta)%R ->
+      (Rabs (grid_interp ns d i f t - f t) < eps)%R.
+Proof. exact (refinement_converges f lo hi d M Lam). Qed.
+Print Assumptions C19_refinement_converges.
+(* from the interpolation error to the prediction: the contracted operator is the convolution with the interpolant (C01), so the
+   error of the prediction is the convolution with (I f - f).  PARTIAL: the Lipschitz constant Le of the interpolation error (an
+   O(h^d) quantity) is a hypothesis, not derived from the smoothness of f *)
+Theorem C19_prediction_error_partial k f If x E Le W Ws : (0 < x <= 1)%R -> (0 <= Le)%R ->
+  (forall u, (x <= u <= 1)%R -> (Rabs (If u - f u) <= E)%R) ->
+  (forall u v, (x <= u <= 1)%R -> (x <= v <= 1)%R -> (Rabs ((If u - f u) - (If v - f v)) <= Le * Rabs (u - v))%R) ->
+  ex_RInt (integrand k If x) x 1 -> ex_RInt (integrand k f x) x 1 -> is_RInt (fun z => (Rabs (r_reg k z) / z)%R) x 1 W ->
+  is_RInt (fun z => (Rabs (r_sing k z) * ((1 - z) / (z * z)))%R) x 1 Ws ->
+  (Rabs (conv_spec k If x - conv_spec k f x) <= (W + Rabs (r_loc k x)) * E + Ws * (Le * x + E))%R.
+Proof. exact (prediction_error_full k f If x E Le W Ws). Qed.
+Print Assumptions C19_prediction_error_partial.
+(* non-vacuity of the smoothness hypotheses: exp on three nodes *)
+Example C19_error_example t : (0 <= t <= 1)%R ->
+  (Rabs (interp [0; 1 / 2; 1]%R exp t - exp t) <= (1 + lebesgue [0; 1 / 2; 1]%R t) * (3 * (1 - 0) ^ 3 / INR (fact 3)))%R.
+Proof. exact (interp_error_exp t). Qed.
